@@ -79,6 +79,19 @@ class Node:
 
 
 @dataclasses.dataclass
+class Window:
+    days: typing.List[datetime.date]
+
+
+@dataclasses.dataclass
+class Schedule:
+    """a nested structured type whose inner class has a member type (list[date]) that the outer class reaches too - the type
+    graph meets it twice, once inside the nested class"""
+    window: Window
+    holidays: typing.List[datetime.date]
+
+
+@dataclasses.dataclass
 class Derived:
     """a dataclass with a field that is not a constructor argument (init=False)"""
     name: str
@@ -144,6 +157,8 @@ def composites():
         ("dict[str,Point]", dict[str, Point], [{"p": Point(1, 2.0)}]),
         ("Optional[Point]", typing.Optional[Point], [None, Point(5, 6.0)]),
         ("Node", Node, [Node(1), Node(1, Node(2, Node(3))), Node(1, None, [Node(2), Node(3, Node(4))])]),
+        ("Schedule(member type shared with a nested class)", Schedule,
+         [Schedule(Window([datetime.date(2020, 1, 2)]), [datetime.date(2021, 3, 4), datetime.date(2022, 5, 6)])]),
         ("Derived(init=False field)", Derived, [Derived("n")]),
         ("list[Derived]", list[Derived], [[Derived("a"), Derived("b")]]),
         ("UserId", UserId, [UserId(5)]),
